@@ -1,5 +1,6 @@
 """Obligation name (regex) -> replay driver script (run natively on /repo with /venv/bin/python)."""
 DRIVERS = [
+    (r"(TriggerHandler\.trace_call|TriggerHandler\.__process_call_backs|FunctionLocation\.at_location|TriggerHandler\.__actions_for_location)/(SIG|POST/store-invariant|POST/tracing)", "c01_trace_call_escapes.py"),
     (r"thread_local\.py:ThreadLocal\.", "c15_threadlocal.py"),
     (r"TriggerContext\.evaluate_expression/PRE/call:eval/", "c10_eval_scope.py"),
 ]
